@@ -400,19 +400,27 @@ func c16Controlled(out *vlib.Out, r *vlib.Rand, nops int) {
 				acc.cancel()
 				res, ok := waitRes(acc, 20*time.Second)
 				if !ok {
-					record(fmt.Sprintf("SX%d", h), "hang")
+					record(fmt.Sprintf("SXc%d", h), "hang")
 					fail("C16:cancel-does-not-return", fmt.Sprintf("acceptor %d was sent a connection and cancelled but did not return", hs.owner))
 					return
 				}
 				acc.state = "done"
 				delete(holder, acc.id)
-				record(fmt.Sprintf("SX%d", h), "sent:either")
-				out.Checked()
-				if fc, isFake := res.conn.(*c16FakeConn); res.err == nil && (!isFake || fc.h != h) {
-					fail("C16:cross-delivery", fmt.Sprintf("acceptor %d was sent connection %d, was cancelled, and returned another connection (%v)", hs.owner, h, res.conn))
-				} else if res.err == nil {
+				// which case of the select the implementation took goes on the model line: the model takes the same
+				// one (the registrations end up the same either way, the channel's buffer does not)
+				if res.err == nil {
+					got := -1
+					if fc, isFake := res.conn.(*c16FakeConn); isFake {
+						got = fc.h
+					}
+					record(fmt.Sprintf("SXc%d", h), fmt.Sprintf("sent:conn:%d", got))
 					out.Count("listener:send-then-cancel:connection-won")
+					out.Checked()
+					if got != h {
+						fail("C16:cross-delivery", fmt.Sprintf("acceptor %d was sent connection %d, was cancelled, and returned another connection (%v)", hs.owner, h, res.conn))
+					}
 				} else {
+					record(fmt.Sprintf("SXx%d", h), "sent:cancelled")
 					out.Count("listener:send-then-cancel:cancel-won")
 				}
 				checkFree(hs.owner, acc.id)
